@@ -319,6 +319,7 @@ var worldExpr = &world{
 	docs: []doc{
 		{name: "mixed", valid: true, text: "let x = 1 + 2 * (3 - y);\nf(x, g(1, \"two\"), -3.5);\nlet é = \"ünï\" + x;\n",
 			stmts: []string{"let x = 1 + 2 * (3 - y);", "f(x, g(1, \"two\"), -3.5);", "let é = \"ünï\" + x;"}},
+		{name: "tight-minus", valid: true, text: "let d = x-y-1;\nfoo-bar(a-b);\n"},
 		{name: "calls", valid: true, text: "a();b(c());d(e, f(g(h)));\n", stmts: []string{"a();", "b(c());", "d(e, f(g(h)));"}},
 		{name: "raw-where", valid: true, text: "raw a + ( b 1.5 \"s\";\nlet v = x * 2 where v > 0;\nraw z;", stmts: []string{"raw a + ( b 1.5 \"s\";", "let v = x * 2 where v > 0;", "raw z;"}},
 		{name: "commented", valid: true, text: "/* lead */ raw a /* mid */ b // tail\n;\nlet v = /* c */ 1 where /* d */ v > 0; // end\nf( /* no args */ ); // last"},
